@@ -102,7 +102,10 @@ pub fn check_datum(sub: &Subject, input: &[u8], log: &mut CaseLog) -> CaseResult
     }
     judge_usage(u, input.len(), class, "read_value", || idetail(&sub.text, input, "read_value", vec![]))?;
     // 2. schema-aware deserializer, deserialize_any and typed
-    let budget = 8 * input.len() as u64 + limit() as u64 + 4096;
+    // every array or map may hold as many zero-width items as the limit allows, and the input can
+    // open at most one collection per byte: the property's bound is one in BOTH the input size and
+    // the limit (an unbounded loop still exceeds it at once)
+    let budget = 8 * input.len() as u64 + 4096 + (limit() as u64).saturating_mul(input.len() as u64 + 1);
     for (name, which) in [("read_deser<any>", 0), ("read_deser<typed>", 1)] {
         log.sub_evals += 1;
         dynserde::reset_work(budget);
